@@ -4,7 +4,20 @@
    every selected peer and to no other node) quantifies over networks of nodes; it is decided by the
    executed correspondence on 2-5 node meshes with a conservation oracle (py/props/c10.py).  The
    per-node theorems below are the facts that oracle rests on. *)
-From VpnModel Require Import Base Nonce Replay Core CoreProofs Conn PeerCrypto SealProofs Table Node NodeProofs TrustProofs.
+From VpnModel Require Import Base Nonce Replay Core CoreProofs Conn PeerCrypto SealProofs Table Node NodeProofs TrustProofs EndToEndProofs.
+
+(* END TO END (two nodes): a frame read from the interface of node A whose destination resolves to peer B causes exactly one datagram, to B, and that datagram makes B write exactly that frame to its interface and nothing else, whenever the two connection objects are in sync (B holds A's sealing key under its id, nonce reconstructible, window admits: the C07/C04/C03 invariants) *)
+Theorem C10_unicast_end_to_end : forall salts now now' nA nB frame s d s' d' addrA addrB pdA pdB cA cB tA',
+  parse_frame (n_cfg nA) frame = Ok (s, d) ->
+  table_lookup (n_table nA) now d = (Some addrB, tA') ->
+  aget (n_peers nA) addrB = Some pdA -> pc_plain (p_crypto pdA) = false -> pc_core (p_crypto pdA) = Some cA ->
+  aget (n_peers nB) addrA = Some pdB -> aget (n_pending nB) addrA = None ->
+  pc_plain (p_crypto pdB) = false -> pc_core (p_crypto pdB) = Some cB ->
+  in_sync cA cB ->
+  parse_frame (n_cfg nB) frame = Ok (s', d') ->
+  exists w, snd (handle_iface salts now nA frame) = [XSend addrB w] /\
+            snd (handle_net salts now' nB addrA w) = [XWrite frame].
+Proof. exact unicast_end_to_end. Qed.
 
 (* an interface read only ever causes datagrams to peers, never an interface write *)
 Theorem C10_iface_only_sends : forall salts now n frame,
@@ -46,6 +59,7 @@ Theorem C10_byte_identical : forall ok p1 p2 c1 c2 ty body p1' w, pc_plain p1 = 
   snd (fst (pc_handle ok p2 w)) = Ok (MMessage ty body).
 Proof. exact pc_roundtrip. Qed.
 
+Print Assumptions C10_unicast_end_to_end.
 Print Assumptions C10_iface_only_sends.
 Print Assumptions C10_send_to_peers_only.
 Print Assumptions C10_no_relay.
